@@ -50,6 +50,7 @@ where
         }),
         encode_faulty:    None,
         rejects_trailing: false,
+        crafted: None,
     }
 }
 
@@ -134,6 +135,7 @@ where
             }
         })),
         rejects_trailing: false,
+        crafted: None,
     }
 }
 
@@ -231,5 +233,6 @@ where
             }
         })),
         rejects_trailing: true,
+        crafted: None,
     }
 }
